@@ -38,3 +38,5 @@ def setup(E):
                                 "bounded: 40 (400) random multifurcating inputs, <= 4 object leaves, <= 4 species leaves, <= 45 refinement pairs",
                                 "sreconcile_extended_spfs / usreconcile_extended_uspfs on multifurcating inputs: returned cost = minimum over an independent enumeration of all binary refinements of both trees of the "
                                 "binary-input oracle optimum; every returned solution refers to binary trees keeping the original clades, names, colours and leaf data")
+    E._st_sets = steps.standin("gain-sets-required-sets-precedence-graph:contracts-at-runtime", "sets",
+                               "bounded: 400 (6000) random inputs of the C02/C03 scopes; executable contracts of _compute_gain_sets, _compute_lca_sets, _make_prec_graph")
